@@ -35,6 +35,12 @@ def main():
                                           min_upd=5, max_upd=9))
             for _ in range(n // 2)]
     simcheck.run_family(ck, "removal_then_closed_and_reopened", scs4, propcheck.c09, "C09", "removal-reopen")
+    # market-on-close LAY liabilities in WIN markets: several removals in one market with the exchange rescaling the factors of the remaining runners
+    # in between, and the same selection ids with different factors in two markets of one run
+    scs5 = [simgen.gen_scenario(rng, dict(opts, kinds=["MOC"] * 6 + ["L"], p_place=0.8, p_remove=0.6, p_inplay=0.15, p_bsp=1.0, types=["WIN"], nrun=[4, 5],
+                                          adjs=[500, 1000, 2000, 3000], rescale_adj=True, nmarkets=[1, 2], min_upd=7, max_upd=12))
+            for _ in range(n // 2)]
+    simcheck.run_family(ck, "moc_lay_liability_rescaled_factors_and_shared_selections", scs5, propcheck.c09, "C09", "removal-moc2")
     return ck.finish("scenarios on the real FlumineSimulation with runner removals (factor None/0/2.49/2.5/2.51/10/33/99, before and after in-play, 1-2 removals per market) while orders rest, are partly filled, partly cancelled, lapsed, pending or have a request in flight; 1-3 markets per run sharing selection ids, sequential and event-grouped; WIN/PLACE/OTHER_PLACE/EACH_WAY; compared with the Coq model and checked by an independent re-computation of void/reduction")
 
 
